@@ -37,6 +37,7 @@ type visInfo struct {
 	dom   func(st *State) Term
 	iter  types.Object // pseudo object holding the iteration counter (range over slice)
 	cnt   types.Object // pseudo object: number of completed iterations (range over map)
+	seq   Term         // the sequence being ranged over (range over slice)
 }
 
 // Exec verifies one function.
@@ -83,6 +84,8 @@ type Exec struct {
 	memoBusy int
 	memoN    map[string]int
 	pendingAssert string
+	tainted map[types.Object]bool // slice variables that may share their backing array with a caller's slice
+	aliasN  int
 	keepVar map[types.Object]bool // function-level locals mentioned in ensures clauses: kept across merges
 	calledObj map[string]types.Object   // callee name -> ghost "has been called" flag
 	lastRetObj map[string][]types.Object // callee name -> ghost copies of the results of the last call
@@ -275,6 +278,89 @@ func (e *Exec) memoPred(st *State, pred *FuncInfo, ref Term) Term {
 		return True
 	}
 	return e.eval(sub, ret.Results[0])
+}
+
+// rootIdent returns the variable at the root of a slice expression (x, x[a:b], (x)).
+func rootIdent(x ast.Expr) *ast.Ident {
+	for {
+		switch v := x.(type) {
+		case *ast.ParenExpr:
+			x = v.X
+		case *ast.SliceExpr:
+			x = v.X
+		case *ast.Ident:
+			return v
+		default:
+			return nil
+		}
+	}
+}
+
+// computeTaint: slice-typed parameters of the verified function, and locals assigned from them (directly, by
+// re-slicing or by append), may share their backing array with the caller's slice. Slices have value
+// semantics in this verifier, so a write through such a variable would be invisible to the caller: it is
+// reported as a failed obligation instead (fail closed).
+func (e *Exec) computeTaint(fi *FuncInfo) {
+	e.tainted = map[types.Object]bool{}
+	info := fi.Pkg.TypesInfo
+	for _, pl := range fi.Decl.Type.Params.List {
+		for _, n := range pl.Names {
+			if o := info.Defs[n]; o != nil {
+				if _, ok := o.Type().Underlying().(*types.Slice); ok {
+					e.tainted[o] = true
+				}
+			}
+		}
+	}
+	for changed := true; changed; {
+		changed = false
+		ast.Inspect(fi.Decl.Body, func(n ast.Node) bool {
+			as, ok := n.(*ast.AssignStmt)
+			if !ok || len(as.Lhs) != len(as.Rhs) {
+				return true
+			}
+			for i, r := range as.Rhs {
+				src := r
+				if c, ok := r.(*ast.CallExpr); ok {
+					if id, ok := c.Fun.(*ast.Ident); ok && id.Name == "append" && len(c.Args) > 0 {
+						src = c.Args[0]
+					}
+				}
+				ri := rootIdent(src)
+				li, _ := as.Lhs[i].(*ast.Ident)
+				if ri == nil || li == nil {
+					continue
+				}
+				ro := info.Uses[ri]
+				lo := info.Defs[li]
+				if lo == nil {
+					lo = info.Uses[li]
+				}
+				if ro != nil && lo != nil && e.tainted[ro] && !e.tainted[lo] {
+					e.tainted[lo] = true
+					changed = true
+				}
+			}
+			return true
+		})
+	}
+}
+
+// noteSliceWrite: an element write, sort or copy through x.
+func (e *Exec) noteSliceWrite(st *State, node ast.Node, x ast.Expr) {
+	if len(e.frames) != 1 || e.spec > 0 || e.tainted == nil {
+		return
+	}
+	id := rootIdent(x)
+	if id == nil {
+		return
+	}
+	o := e.objOf(id)
+	if o == nil || !e.tainted[o] {
+		return
+	}
+	e.aliasN++
+	e.Ctx.AddObligation(e.Fn.FullName(), "alias", fmt.Sprintf("%s/alias/param-slice-write/%s#%d", e.fnName(), id.Name, e.aliasN), st.PC, False, e.pos(node.Pos()))
 }
 
 // havocMemo: memo cells may be filled by any callee (they are outside every frame condition).
